@@ -16,6 +16,9 @@
 (* content does not notice that the storage is gone.                       *)
 (* The key is the SQL text alone: it names the tables, not the feed nor    *)
 (* the storage, so with equally named tables it is the statement number.   *)
+(* Feeds in OwnName provision the schema from a physical table of their    *)
+(* own name inside a database they share (same connection): the SQL text   *)
+(* names that table, so their key is the statement number AND the feed.    *)
 (* Results is one class attribute shared by alchemy and lazy readers.      *)
 (* TLC exhibits the histories in which ImplRead differs from the           *)
 (* requirement (invariant Fresh, expected to be violated) and exports, for *)
@@ -24,18 +27,19 @@
 (***************************************************************************)
 EXTENDS Reads, Json, TLCExt
 
-CONSTANT Lazy         \* the feeds that are lazy (monolite) feeds; the others are alchemy feeds
+CONSTANTS Lazy,       \* the feeds that are lazy (monolite) feeds; the others are alchemy feeds
+          OwnName     \* the alchemy feeds whose physical table carries a name of its own (the SQL text differs per feed)
 VARIABLES frames, disk, reg, impl     \* impl: per Read action what the as-is model returns: [err, rows]
 ivars == <<storage, avail, hist, outs, frames, disk, reg, impl>>
 
-Key(s) == s
+Key(f, s) == <<s, IF f \in OwnName THEN f ELSE "">>
 IInit == Init /\ frames = <<>> /\ disk = <<>> /\ reg = 0 /\ impl = <<>>
 Has(m, k) == \E i \in DOMAIN m : m[i].key = k
 Get(m, k) == m[CHOOSE i \in DOMAIN m : m[i].key = k].rows
 Put(m, k, rows) == IF Has(m, k) THEN m ELSE Append(m, [key |-> k, rows |-> rows])
 
 IRead(f, s) ==
-    LET k == Key(s)
+    LET k == Key(f, s)
         cached == Has(frames, k) \/ Has(disk, k)
         \* a lazy reader registers (loads) its origin unless the result is already known; once per process
         loads == f \in Lazy /\ ~cached /\ reg = 0
